@@ -244,16 +244,18 @@ def extract_branch_results_with_internals(net, branch_results, table_name,
             for i, (res_name, entry) in enumerate(res_mean_hydraulics):
                 res_table[res_name].values[pt] = res[i + 3][connected_ind] / num_internals
         if len(res_branch) > 0:
-            use_numba = get_net_option(net, "use_numba")
-            _, sections, connected_sum = _sum_by_group(use_numba, idx_pit, np.ones_like(idx_pit),
-                                comp_connected.astype(np.int32))
-            connected_ind = connected_sum > 0.99
-            indices_last_section = (np.cumsum(sections) - 1).astype(int)[connected_ind]
-            # hint: idx_pit[placement_table] should result in the indices as ordered in the table
-            pt = placement_table[connected_ind]
+            # the sections of one element are stored consecutively in the pit (in the order of the table), so the
+            # first / last section of each element are the positions where the element index changes
+            change = idx_pit[1:] != idx_pit[:-1]
+            first_section = np.flatnonzero(np.concatenate(([True], change)))
+            last_section = np.flatnonzero(np.concatenate((change, [True])))
+            # the outlet is the last section, or the first one if the fluid flows against the declared direction
+            reverse = branch_pit[f:t, FROM_NODE_T_SWITCHED][last_section].astype(bool)
+            outlet_section = np.where(reverse, first_section, last_section)
+            connected = comp_connected[last_section]
 
             for i, (res_name, entry) in enumerate(res_branch):
-                res_table[res_name].values[pt] = branch_results[entry][indices_last_section]
+                res_table[res_name].values[connected] = branch_results[entry][f:t][outlet_section][connected]
 
 
 def extract_branch_results_without_internals(net, branch_results, required_results_hydraulic,
